@@ -57,7 +57,12 @@ def raw_object_output(prog):
     return bool(re.search(r"\.First\(\)\)\s*$", q) or re.search(r"lambda (\w+): \1\)\s*$", q))
 
 
+def declares_tree_type(prog):
+    return "'tree_type'" in prog.query
+
+
 PREDICATES = {
+    "declares_tree_type": declares_tree_type,
     "raw_object_output": raw_object_output,
     "uses_minmax": uses_minmax,
     "range_with_computed_bound": range_with_computed_bound,
